@@ -67,12 +67,18 @@ def generate(ctx, rng):
                 ["jump_7h", "send", "jump_5h", "send", "jump_small"], ["jump_5h"] * 3, ["jump_7h", "fin", "jump_7h"],
                 ["jump_7h", "auth_bad_token", "jump_7h"], ["send"] * 5 + ["jump_7h", "send", "jump_7h"],
                 ["jump_25h"], ["jump_49h"], ["send", "jump_25h", "send", "jump_49h"], ["set_lifetime", "jump_life"],
-                ["send", "set_lifetime", "jump_life", "send", "set_lifetime", "jump_small", "jump_life"]]
+                ["send", "set_lifetime", "jump_life", "send", "set_lifetime", "jump_small", "jump_life"],
+                # new connections are refused for a while although the old one is still open (the unit's listener is busy)
+                ["jump_life", "send_refused", "send"], ["send", "jump_life", "send_refused", "send_refused", "send"], ["jump12", "send_refused", "send"],
+                ["jump_small", "send_refused", "jump_life", "send_refused"],
+                # the application copies / pickles its (currently disconnected) object and goes on with the copy
+                ["send_error", "copy", "send"], ["send_silent", "copy", "send", "jump12", "send"], ["send_cancel", "copy", "jump_life", "send"],
+                ["send_error", "copy", "send_error", "copy", "send"], ["copy", "send"]]
     for i, h in enumerate(directed):
         for lt in (None, 46800, 3600):
             yield ("d", i, lt), {"kind": "history", "letters": h, "lifetime": lt}
-    extra = LETTERS + ["jump_5h", "jump_7h", "jump_25h", "jump_49h"]
-    for j in range(300 if quick else 120000):
+    extra = LETTERS + ["jump_5h", "jump_7h", "jump_25h", "jump_49h", "send_refused", "copy"]
+    for j in range(300 if quick else 240000):
         d = rng.randint(4, 12 if quick else 25)
         yield ("r", j), {"kind": "history", "letters": [rng.choice(extra) for _ in range(d)], "lifetime": rng.choice(LIFETIMES)}
     # the very first authentication attempts fail at the TCP level (refused / no answer) before anything else happens
@@ -87,12 +93,66 @@ def generate(ctx, rng):
     for zi, (tz, ep) in enumerate(zones):
         for hi, h in enumerate(tz_hist):
             yield ("tz", zi, hi), {"kind": "history", "letters": h, "lifetime": [None, 3600, 46800][(zi + hi) % 3], "tz": tz, "epoch": list(ep)}
-    yield ("long",), {"kind": "long", "n": 5000 if quick else 140000}
+    # credentials of particular shapes given to Device.authenticate (bytes or hex text): the handshake must carry exactly that token
+    shapes = [(b" ", b"\n"), (b"\t", b""), (b"", b" "), (b"\r\n", b"\r\n"), (b"\x0b", b"\x0c"), (b"\x00", b""), (b"", b"\x00"), (b"0x", b""), (b"'", b"'"),
+              (b'"', b'"'), (b"\xff", b"\xff"), (b"  ", b"  ")]
+    for j, (head, tail) in enumerate(shapes * (1 if quick else 40)):
+        mid = rng.randbytes(64 - len(head) - len(tail))
+        kmid = rng.randbytes(30)
+        yield ("tokenshape", j), {"kind": "tokenshape", "token": head + mid + tail, "key": (head[:1] or b"k") + kmid + (tail[-1:] or b"k"),
+                                  "form": ["bytes", "hex", "HEX", "hex-padded"][j % 4]}
+    yield ("long",), {"kind": "long", "n": 5000 if quick else 280000}
+
+
+def _tokenshape(ctx, case):
+    from msmart.device import AirConditioner as AC
+    token, key = bytes(case["token"]), bytes(case["key"])
+    net = H.new_net()
+    dev = SimDevice(net, version=3, token=token, key=key, device_id=0xC07)
+    form = case["form"]
+    if form == "bytes":
+        targ, karg = token, key
+    elif form == "HEX":
+        targ, karg = token.hex().upper(), key.hex().upper()
+    elif form == "hex-padded":
+        targ, karg = " " + token.hex() + "\n", key.hex() + " "          # bytes.fromhex() skips ASCII whitespace
+    else:
+        targ, karg = token.hex(), key.hex()
+
+    async def go(loop):
+        ac = AC(ip=dev.host, port=dev.port, device_id=dev.device_id)
+        await ac.authenticate(targ, karg)
+        await ac.refresh()
+        await asyncio.sleep(H12 + 99.1)
+        await ac.refresh()
+        return ac.online
+
+    k = ("tokenshape", token[:2], token[-2:], form)
+    try:
+        online, _ = H.run_virtual(go, net)
+    except Exception as e:  # noqa: BLE001
+        ctx.count(k, kind="tokenshape-raised")
+        seen = [h[2] for h in dev.handshakes]
+        if any(t != token for t in seen):
+            ctx.violation("wrong-token", f"handshake carried a token that is not the configured one ({len(seen[0])} bytes for a {len(token)}-byte token)", case)
+        else:
+            ctx.violation(f"history-raises/{type(e).__name__}", f"authenticate/refresh with a {form} token raised {type(e).__name__}: {e}", case)
+        return
+    ctx.count(k, kind="tokenshape")
+    for h in dev.handshakes:
+        if h[2] != token:
+            ctx.violation("wrong-token", "handshake carried a token that is not the configured one", case, {"sent": h[2]})
+            break
+    if len(dev.handshakes) < 2 or not online:
+        ctx.violation("auth-expiry-ignored" if online else "history-raises/offline", f"{len(dev.handshakes)} handshakes over a 12 h gap, online={online}", case)
+    _check(ctx, {**case, "letters": [], "lifetime": None}, dev, net, [], [], None, token=token)
 
 
 def run_case(ctx, case):
     if case["kind"] == "long":
         return _long(ctx, case)
+    if case["kind"] == "tokenshape":
+        return _tokenshape(ctx, case)
     letters = case["letters"]
     lifetime = case["lifetime"]
     net = H.new_net()
@@ -117,6 +177,7 @@ def run_case(ctx, case):
     dev.on_exchange = on_exchange
     calls = []
     windows = []     # (t0, t1) during which BAD_TOKEN is the offered token
+    ncopy = {"n": 0}
 
     async def op(loop, lan, letter, coro_fn):
         t0 = loop.time()
@@ -173,6 +234,17 @@ def run_case(ctx, case):
                     dev.connect_script = ["refuse"]
                     await op(loop, lan, letter, lambda: lan.send(q))
                     dev.connect_script = []
+            elif letter == "send_refused":
+                dev.connect_script = ["refuse"] * 4
+                await op(loop, lan, "send_refused", lambda: lan.send(q))
+                dev.connect_script = []
+            elif letter == "copy":
+                # only while the object holds no connection (a live transport cannot be copied, with or without the library's help)
+                if getattr(lan, "_protocol", "?") is None:
+                    import copy as _copy
+                    import pickle as _pickle
+                    ncopy["n"] += 1
+                    lan = _copy.deepcopy(lan) if ncopy["n"] % 2 else _pickle.loads(_pickle.dumps(lan))
             elif letter == "set_lifetime":
                 # the application applies its configuration again (same value) while the connection is alive
                 lan.max_connection_lifetime = lifetime
@@ -243,6 +315,7 @@ def run_case(ctx, case):
             _time.tzset()
     ctx.count(("hist", tuple(letters), lifetime, case.get("tz"), tuple(case.get("epoch") or ())), nontrivial=len(letters) > 0, kind=f"history-depth-{min(len(letters), 5)}",
               sample={"letters": letters, "lifetime": lifetime, "calls": [(round(c[0], 3), c[2], c[3]) for c in calls]} if len(letters) == 3 else None)
+    ctx.bump("objects-replaced-by-a-copy", ncopy["n"])
     _check(ctx, case, dev, net, calls, windows, lifetime)
     # the closing plain send against a healthy device must succeed (recovery is C08's business; recorded only)
     if calls and calls[-1][3] != "ok":
@@ -274,8 +347,9 @@ def _conn_packets(dev):
     return per, opened
 
 
-def _check(ctx, case, dev, net, calls, windows, lifetime, modulus_state=None):
+def _check(ctx, case, dev, net, calls, windows, lifetime, modulus_state=None, token=None):
     per, opened = _conn_packets(dev)
+    TOKEN = token if token is not None else globals()["TOKEN"]
     ms = modulus_state if modulus_state is not None else {"W": None}
     last_hs_ok = {}
     for cid, pkts in per.items():
